@@ -27,7 +27,7 @@ ASSUMPTIONS = C03.ASSUMPTIONS + [
 ]
 
 for _u in list(UNITS.get("C01", [])):
-    if _u["name"].startswith("aggregate_predictions."):
+    if _u["name"].startswith("aggregate_predictions."):  # (not the bootstrap.* ones: registered below from C06)
         UNITS.setdefault("C02", []).append(dict(_u, prop="C02", name="base." + _u["name"]))
 for _u in list(UNITS.get("C03", [])):
     if _u["name"].startswith("nonparametric.aggregate_intervals."):
